@@ -61,6 +61,7 @@ type c16Script struct {
 	Trailer metadata.MD
 	Code    codes.Code
 	Msg     string
+	Gate    chan struct{} // when set: the backend answers only after it is closed
 	// recorded
 	mu      sync.Mutex
 	gotMD   metadata.MD
@@ -146,6 +147,13 @@ func (b *c16Backend) handle(srv any, stream grpc.ServerStream) error {
 	sc.mu.Lock()
 	sc.called, sc.gotMD, sc.gotMsgs, sc.method, sc.backend = true, md.Copy(), msgs, method, b.name
 	sc.mu.Unlock()
+	if sc.Gate != nil {
+		select {
+		case <-sc.Gate:
+		case <-stream.Context().Done():
+			return stream.Context().Err()
+		}
+	}
 	if len(sc.Header) > 0 {
 		stream.SetHeader(sc.Header)
 	}
